@@ -28,11 +28,13 @@ func DHTFindNode(params DHTFindNodeParams) (*DHTFindNodeResult, error) {
 		params.Validate = func(NodeInfo) bool { return true }
 	}
 	var res DHTFindNodeResult
+	var visited int
 	dhtIterate(params.Initial, params.Target[:], 10, func(node NodeInfo) ([]NodeInfo, bool) {
-		if res.Closest.IsZero() || DistanceLt(params.Target[:], node.ID[:], res.Closest[:]) {
+		if visited == 0 || DistanceLt(params.Target[:], node.ID[:], res.Closest[:]) {
 			res.Closest = node.ID
 			res.Info = node.Info
 		}
+		visited++
 		if res.Closest == params.Target {
 			return nil, false
 		}
